@@ -206,6 +206,28 @@ fn history() {
             check_native("salt_of_64_bytes_accepted", false, || format!("{:#}", e));
         }
     }
+    // a duplicated code has its source's checksum: the same creator and salt on the duplicate propose
+    // the address taken on the source — rejected as a duplicate; a fresh salt gives the address
+    // instantiate2_address computes from the REPORTED checksum (seed C11h)
+    {
+        let (src, dup) = (ids[dup_of], ids[3]);
+        let salt_d = Binary::from(b"dup-salt".to_vec());
+        let on_src = app.instantiate2_contract(src, user.clone(), &Script::new(), &[], "on-src", None, salt_d.clone());
+        let snap = snapshot(&app);
+        let on_dup = app.instantiate2_contract(dup, user.clone(), &Script::new(), &[], "on-dup", None, salt_d.clone());
+        check_native("same_checksum_creator_salt_rejected_across_code_ids", on_src.is_ok() && on_dup.is_err(), || format!("{:?} {:?}", on_src, on_dup));
+        if on_dup.is_err() {
+            check_unchanged("repeated_salt_leaves_state_unchanged", &app, &snap);
+        }
+        let fresh = Binary::from(b"dup-fresh".to_vec());
+        let got = app.instantiate2_contract(dup, user.clone(), &Script::new(), &[], "on-dup2", None, fresh.clone());
+        let want = app.wrap().query_wasm_code_info(dup).ok().and_then(|ci| {
+            let canon = cosmwasm_std::Api::addr_canonicalize(app.api(), user.as_str()).ok()?;
+            let a_ = cosmwasm_std::instantiate2_address(ci.checksum.as_slice(), &canon, fresh.as_slice()).ok()?;
+            cosmwasm_std::Api::addr_humanize(app.api(), &a_).ok()
+        });
+        check_native("salted_address_is_the_one_computed_from_the_reported_checksum", got.as_ref().ok() == want.as_ref(), || format!("{:?} vs {:?}", got, want));
+    }
     // the same code (checksum), creator and salt on a fresh chain with a different history
     let mut app2 = App::default();
     if let Some(ids2) = store_all(&mut app2, &creator, explicit, dup_of) {
